@@ -195,6 +195,21 @@ where CL03<CS>: Scheme<PubKey = CL03PublicKey, PrivKey = CL03SecretKey>, CS::Has
                                        _ => env.ctx.class("unbound-square:no-proof") }
                         env.ctx.trace();
                     }
+                    // a prover that runs the honest protocol on an in-range opening but names the target commitment as E, then
+                    // replaces E' by the power of the commitment it can really open (E and E' no longer belong together)
+                    if env.ctx.state(&[r.id.as_bytes(), pn.as_bytes(), b"mismatched-E-prime"]) {
+                        let (r_in, r_out) = (rnd("mm-in"), rnd(pn));
+                        let target = commit(&x, &r_out, g, h, n).value;
+                        let opened = commit(&mid, &r_in, g, h, n).value;
+                        let big_t = 2 * (T_PARAM + L_PARAM + 1) + (&b - &a).complete().significant_bits();
+                        let made = prove(&mid, &CL03Commitment { value: target.clone(), randomness: r_in.clone() }, &a, &b); env.ctx.step();
+                        if let O::Ok(p0) = made {
+                            let mut j = to_json(&p0); j["E_prime"] = int_leaf(&modpow(&opened, &pow2(big_t), n));
+                            if let Some(p) = from_json::<RP>(&j) { expect_bool(env, &r.id, &format!("verify(proof for an in-range opening presented for the commitment to x = {}, E' taken from the opened commitment)", pn), &verify(&p, g, h, n, &a, &b), false, true, "mismatched-E-prime", json!({"base": det0, "point": pn})); }
+                            env.ctx.class("mismatched-E-prime:judged");
+                        } else { env.ctx.class("mismatched-E-prime:no-proof"); }
+                        env.ctx.trace();
+                    }
                     for fmt in ["H(omega)", "H(omega, E_x_2, statement)"] {
                         if !env.ctx.state(&[r.id.as_bytes(), pn.as_bytes(), fmt.as_bytes()]) { continue; }
                         let rr = rnd(pn);
